@@ -403,18 +403,26 @@ def dict_keys(d: SV) -> SV:
 class SpecDef:
     """A defined function symbol F(formals) = body, unfolded on demand at ground instances."""
 
-    def __init__(self, decl, formals, body, side=()):
+    def __init__(self, decl, formals, body, side=(), schematic=()):
         self.decl, self.formals, self.body, self.side = decl, formals, body, list(side)
+        self.schematic = list(schematic)  # fresh constants standing for universally quantified ghosts of callee facts
 
     def instance(self, actuals):
         sub = list(zip(self.formals, actuals))
         d = self.decl(*actuals) == z3.substitute(self.body, *sub)
-        if self.side:
-            return z3.And(d, *[z3.substitute(f, *sub) for f in self.side])
-        return d
+        if not self.side:
+            return d
+        facts = [z3.substitute(f, *sub) for f in self.side]
+        out = list(facts)
+        for g in self.schematic:
+            for cst in list(QUERY_CONSTS.get(g.sort().name(), {}).values())[:6]:
+                if not cst.eq(g):
+                    out += [z3.substitute(f, (g, cst)) for f in facts]
+        return z3.And(d, *out)
 
 
 SPEC_DEFS: dict[str, SpecDef] = {}
+QUERY_CONSTS: dict = {}  # sort name -> {id: constant} occurring in the current query (for axioms that need e.g. the environments)
 
 
 _APPS_CACHE: dict = {}  # formula id -> defined-symbol applications occurring in it (formulas are hash-consed and immutable)
@@ -448,6 +456,10 @@ def unfold(formulas: list, depth: int = 2, limit: int = 400) -> list:
     """Ground unfolding axioms for all defined-symbol applications reachable in `depth` rounds."""
     axioms, done = [], set()
     frontier: list = []
+    QUERY_CONSTS.clear()
+    for f in formulas:
+        for cst in _consts_of(f):
+            QUERY_CONSTS.setdefault(cst.sort().name(), {})[cst.get_id()] = cst
     for f in formulas:
         frontier.extend(_apps_of(f))
     for _ in range(depth):
@@ -477,7 +489,6 @@ COMMUTATIVE: set[str] = set()  # names of binary function symbols assumed commut
 TERM_AXIOMS: dict = {}  # function symbol name -> callable(app) -> list of (assumed) ground facts about that term
 
 
-QUERY_CONSTS: dict = {}  # sort name -> {id: constant} occurring in the current query (for axioms that need e.g. the environments)
 _CONST_CACHE: dict = {}
 
 
